@@ -291,6 +291,45 @@ def _defs(ctx: Ctx, item):
             return out
 
         from hypothesis import strategies as st
+        # messages the application builds from legal values (not obtained from the decoder): segmented, fed back frame by frame, they come
+        # back as the same definition with the same values
+        from . import c09
+        from fractions import Fraction
+
+        def built(asg, fmt, d=d):
+            fields, removed, change, alt = asg
+            if removed is not None or any(a["expect"][0] in ("reject", "either") or a.get("outside_db") for a in fields):
+                return []
+            m = c09.build_message(d, fields)
+            case = {"definition": d.key, "built": [[repr(a["value"]), repr(a["raw_value"])] for a in fields], "format": fmt}
+            try:
+                pk, frames = frames_of(NMEA2000Encoder(), fmt, m)
+                text = NMEA2000Encoder().encode_actisense(m)
+            except ValueError:
+                return []
+            parts = text.split(" ")
+            payload = int.from_bytes(bytes.fromhex(parts[2]), "little") if len(parts) > 2 else 0
+            if db.select(d.pgn, payload) is not d:
+                return []
+            ctx.count()
+            ctx.klass("defs_built_messages")
+            dec = NMEA2000Decoder()
+            got = []
+            for p in pk:
+                try:
+                    got.append(feed(dec, fmt, p))
+                except Exception as e:
+                    return [(f"C03|built|{fmt}|decode-error", f"{d.key}: the decoder rejects frame {len(got)} of {len(pk)}: {type(e).__name__}: {e}", case)]
+            if any(g is not None for g in got[:-1]) or got[-1] is None or got[-1].id != d.id:
+                return [(f"C03|built|{fmt}|delivery|{d.key}", f"delivery pattern {[g is not None for g in got]}, last result "
+                         f"{got[-1].id if got and got[-1] is not None else None}", case)]
+            out = []
+            for f, a, g in zip(d.fields, fields, got[-1].fields):
+                if a["expect"][0] == "num" and a.get("target") is not None and f.type in ("NUMBER", "PGN", "DURATION") and not a.get("tol"):
+                    if g.value is None or abs(Fraction(g.value) - a["target"]) > f.res / 2 * (1 + Fraction(1, 10 ** 6)) + abs(a["target"]) * Fraction(1, 10 ** 12):
+                        out.append((f"C03|built|{fmt}|value|{d.key}/{f.id}", f"{f.id}: sent {float(a['target'])!r}, received {g.value!r}", case))
+            return out
+        ctx.hyp(built, c09.assignment(d), st.sampled_from(FORMATS), max_examples=max(4, n_hyp // 2), name="defs-built", shrink=False, rounds=2)
         ctx.hyp(check, gen.payloads(d, mode="accepted", extra_bytes=False), st.sampled_from(FORMATS), st.integers(0, 253), st.integers(0, 7),
                 gen.payloads(d, mode="accepted", extra_bytes=False), max_examples=n_hyp, name="defs")
 
